@@ -2,7 +2,7 @@
 see selftest/benign/<module>.NOTES.md).  No check of any property may fire on them."""
 ALL = ["C%02d" % i for i in range(1, 21)]
 # behaviour-preserving patches on which a check still raises an alarm (DESIGN 11.6): listed on every run, not failures
-LIMITS = {"w5", "v6"}
+LIMITS = {"w5", "v6", "u3"}
 CASES = [
     {"id": "benign-%s" % m, "props": ALL, "expect": "quiet", "patches": [("selftest/benign/%s.diff" % m, False)],
      "note": "independent benign refactoring of src/%s/mod.rs" % m}
@@ -30,4 +30,10 @@ CASES = [
                     ("v5", "cwt / context / key refactor (const patterns, bstr_or_nil, split_off, extend)"),
                     ("v6b", "performance tweaks without the duplicated cbor_bstr (with_capacity, reserve, then_with, as_deref)"),
                     ("v6", "v6b plus a second, borrowing implementation of cbor_bstr / sig_structure_data"))
+] + [
+    {"id": "benign5-%s" % m, "props": ALL, "expect": "limit" if m in LIMITS else "quiet", "patches": [("selftest/benign/%s.diff" % m, False)], "note": what}
+    for m, what in (("u1", "sign / mac / encrypt: const-generic array_items::<N>, payload / ciphertext helpers, shared aad producers"),
+                    ("u2", "common / util / iana: label decoders through Label::from_cbor_value, cmp helpers, is_private macro"),
+                    ("u3", "whole-crate modernisation (let-else, transpose, bool::then, drain, <[T; 1]>::try_from, const patterns)"),
+                    ("u4", "de-duplication through shared crate-private helpers (try_as_array_of_len, take_trailing, unique_label, structure_data, infallible)"))
 ]
